@@ -387,9 +387,15 @@ func round(ctx *context, args []Datum) (retNum Datum) {
 
 	num0 := args[0].Number("round()")
 
-	// XPath 1.0 4.4: the closest integer; of two equally close ones the
-	// one closest to positive infinity.  NaN, +/-Infinity and +/-0 are
-	// returned unchanged and [-0.5, 0) gives negative zero.
+	rounded := xpathRound(num0)
+
+	return NewNumDatum(rounded)
+}
+
+// xpathRound implements round() as in XPath 1.0 4.4: the closest integer; of
+// two equally close ones the one closest to positive infinity.  NaN,
+// +/-Infinity and +/-0 are returned unchanged and [-0.5, 0) gives negative zero.
+func xpathRound(num0 float64) float64 {
 	var rounded = num0
 	switch {
 	case math.IsNaN(num0) || math.IsInf(num0, 0) || num0 == 0:
@@ -401,8 +407,7 @@ func round(ctx *context, args []Datum) (retNum Datum) {
 			rounded++
 		}
 	}
-
-	return NewNumDatum(rounded)
+	return rounded
 }
 
 func position(ctx *context, args []Datum) (retNum Datum) {
@@ -446,31 +451,28 @@ func substring(ctx *context, args []Datum) (retLit Datum) {
 	num1 := args[1].Number("substring()")
 	num2 := args[2].Number("substring()")
 
-	substrLen := len(lit0)
-	if substrLen == 0 {
+	// XPath 1.0 4.2: the result holds the characters (not bytes) at the
+	// 1-based positions p with round(start) <= p < round(start) +
+	// round(length), evaluated in IEEE arithmetic, so a NaN bound selects
+	// nothing and infinities behave as in the examples of the spec.
+	first := xpathRound(num1)
+	limit := first + xpathRound(num2)
+	begin, end, pos := -1, len(lit0), 0
+	for i := range lit0 {
+		pos++
+		selected := float64(pos) >= first && float64(pos) < limit
+		if selected && begin < 0 {
+			begin = i
+		}
+		if !selected && begin >= 0 {
+			end = i
+			break
+		}
+	}
+	if begin < 0 {
 		return NewLiteralDatum("")
 	}
-
-	// NB: XPATH uses 1 as first index in string, not zero, so we have to
-	//     subtract one here.  We also need to ensure both start and end Pos
-	//     are >= 0.
-	startPos := int(math.Trunc(num1+0.5)) - 1
-	endPos := int(math.Trunc(num2+0.5)) + startPos
-	if startPos < 0 {
-		// Only do this AFTER calculating endPos as the spec says we calculate
-		// length based on the rounded difference of the two params.
-		startPos = 0
-	}
-	if startPos >= substrLen {
-		return NewLiteralDatum("")
-	}
-	if endPos < 0 {
-		endPos = 0
-	}
-	if endPos > substrLen {
-		endPos = substrLen
-	}
-	substr := lit0[startPos:endPos]
+	substr := lit0[begin:end]
 	return NewLiteralDatum(substr)
 }
 
